@@ -5,7 +5,7 @@ a scratch worktree of /repo (outside /repo and /verif, removed afterwards) and t
 Prints one line per change and writes seeded/matrix_result.json. /repo and the committed evidence are not touched."""
 import json, os, re, subprocess, sys, glob
 VERIF = os.path.dirname(os.path.dirname(os.path.abspath(__file__)))
-WT = "/tmp/seedmatrix-wt"
+WT = "/tmp/seedmatrix-wt-%d" % os.getpid()
 env = dict(os.environ, GOPROXY="off", GOSUMDB="off", GOTOOLCHAIN="local"); env.pop("GOFLAGS", None)
 def sh(cmd, cwd=None):
     p = subprocess.run(cmd, shell=True, cwd=cwd, env=env, capture_output=True, text=True)
@@ -38,6 +38,7 @@ try:
             caught.append({"check": ck, "tier": tier, "exit": code, "keys": keys[:4]})
         ok = any(c["exit"] == 1 for c in caught)
         results[sid] = {"property": meta["property"], "runs": caught, "caught": ok}
+        json.dump(results, open(path, "w"), indent=1, sort_keys=True)
         print(f"{sid}: {'CAUGHT' if ok else 'MISSED'} " + "; ".join(f"{c['check']} {c['tier']} exit={c['exit']} {c['keys'][:2]}" for c in caught), flush=True)
 finally:
     sh(f"git -C /repo worktree remove --force {WT}")
